@@ -499,6 +499,15 @@ func (f *frameClient) Call(x *core.TSCtx, site ssa.CallInstruction, s string) ([
 	case "AddString":
 		return one(f.token(x, site, st, tSTR, args[1]))
 	case "AddBytes":
+		if x.Empty(args[1]) && st.typ != 0 && st.typ != 'E' {
+			// appending a slice this path knows to be nil / empty adds nothing: it is not a field where the grammar
+			// expects none (after the -1 of a NULL column)
+			g := backendGrammar[st.typ]
+			seq := append(append([]tok{}, g.pre...), g.group...)
+			if st.q >= len(seq) || seq[st.q] != tBYTES {
+				return one(st)
+			}
+		}
 		return one(f.token(x, site, st, tBYTES, args[1]))
 	case "AddNullTerminate":
 		return one(f.token(x, site, st, tNUL, nil))
